@@ -122,14 +122,25 @@ Fixpoint nlist_eqb (a b : list N) : bool :=
   | _, _ => false
   end.
 
-(* is the handle of a storage operation dead in the specification state? *)
+(* is the handle of a storage operation dead in the specification state?  (for a join: the entity of a lending
+   lookup, or an entity looked up through a restricted item) *)
+Fixpoint member_handles (m : member) : list href :=
+  match m with
+  | MRestrict _ _ _ _ _ others => others
+  | MMaybe m' => member_handles m'
+  | _ => []
+  end.
+
 Definition handle_dead (w : sworld) (o : op) : bool :=
+  let dead h := match hget (s_hs w) h with Some e => negb (l_is_alive (s_life w) e) | None => false end in
   match o with
   | OStore so =>
       match sop_handle so with
-      | Some h => match hget (s_hs w) h with Some e => negb (l_is_alive (s_life w) e) | None => false end
+      | Some h => dead h
       | None => false
       end
+  | OJoin k ms =>
+      existsb dead (flat_map member_handles ms ++ match k with JLendGet h => [h] | _ => [] end)
   | _ => false
   end.
 
